@@ -14,9 +14,9 @@ namespace VL
     precondition — at any position of any run — the write is refused (whatever else is wrong earlier
     only changes which error is reported). -/
 theorem C13_any_defective_item_or_unknown_chromosome_is_refused (bed allowOOO : Bool) (sizes : Nat → Option Nat) (le : Nat → Nat → Bool) :
-    ∀ (stream : List (Nat × List Item)) (prev : Option Nat),
+    ∀ (stream : List (Nat × List Item)) (prev : Option Nat) (seen : List Nat),
       (∃ r ∈ stream, sizes r.1 = none ∨ ∃ len, sizes r.1 = some len ∧ BadItem bed len r.2) →
-      (runs bed allowOOO sizes le prev stream).isSome :=
+      (runs bed allowOOO sizes le prev seen stream).isSome :=
   refuses bed allowOOO sizes le
 
 theorem C13_empty_input_is_refused (bed allowOOO : Bool) (sizes : Nat → Option Nat) (le : Nat → Nat → Bool) :
@@ -26,16 +26,24 @@ theorem C13_empty_input_is_refused (bed allowOOO : Bool) (sizes : Nat → Option
 /-- chromosome order: with sorted input required, a run whose name is not greater than its predecessor's
     is refused (if nothing earlier already was) -/
 theorem C13_chromosome_order_is_enforced (bed : Bool) (sizes : Nat → Option Nat) (le : Nat → Nat → Bool)
-    (p c : Nat) (items : List Item) (rest : List (Nat × List Item)) (h : le c p = true) :
-    runs bed false sizes le (some p) ((c, items) :: rest) = some .notSorted :=
-  refuses_chrom_order bed sizes le p c items rest h
+    (p c : Nat) (items : List Item) (rest : List (Nat × List Item)) (seen : List Nat) (h : le c p = true) :
+    runs bed false sizes le (some p) seen ((c, items) :: rest) = some .notSorted :=
+  refuses_chrom_order bed sizes le p c items rest seen h
 
-/-- acceptance: a stream of known chromosomes in order whose items satisfy every precondition is accepted -/
+/-- **input that is not grouped**: a chromosome with two runs anywhere in the stream is refused, in every sort mode (D23: as
+    found, with chromosome order not required, such input was accepted and made the two-pass writer panic) -/
+theorem C13_input_not_grouped_is_refused (bed allowOOO : Bool) (sizes : Nat → Option Nat) (le : Nat → Nat → Bool)
+    (pre mid post : List (Nat × List Item)) (c : Nat) (i1 i2 : List Item) (prev : Option Nat) (seen : List Nat) :
+    (runs bed allowOOO sizes le prev seen (pre ++ (c, i1) :: (mid ++ (c, i2) :: post))).isSome :=
+  refuses_repeated_chromosome bed allowOOO sizes le pre mid post c i1 i2 prev seen
+
+/-- acceptance: a stream of known chromosomes, each with one run, whose items satisfy every precondition is accepted -/
 theorem C13_valid_streams_are_accepted (bed allowOOO : Bool) (sizes : Nat → Option Nat) (le : Nat → Nat → Bool) :
-    ∀ (stream : List (Nat × List Item)) (prev : Option Nat),
+    ∀ (stream : List (Nat × List Item)) (prev : Option Nat) (seen : List Nat),
       (∀ r ∈ stream, ∃ len, sizes r.1 = some len ∧ checkChrom bed len r.2 = true) →
+      (stream.map (·.1)).Nodup → (∀ r ∈ stream, r.1 ∉ seen) →
       allowOOO = true →
-      runs bed allowOOO sizes le prev stream = none :=
+      runs bed allowOOO sizes le prev seen stream = none :=
   accepts bed allowOOO sizes le
 
 end VL
